@@ -1,4 +1,5 @@
 import PcbV.Model.IntOps
+import PcbV.Gen.Translated
 /-
   C02 — Integer operators follow 16-bit two's-complement semantics.
   Property theorems about `PcbV.IntOps` (the transcription of numbers.py:Integer and of the
@@ -282,5 +283,39 @@ example : idivInt 32768 65535 = .error overflow ∧ idivInt 65529 2 = .ok 65533 
   decide
 example : imod 65529 2 = .ok 65535 ∧ imod 32768 65535 = .ok 0 := by decide
 example : imp_ 1 0 = .ok 65534 ∧ eqv_ 0 0 = .ok 65535 ∧ not_ 65535 = .ok 0 := by decide
+
+/-! ### tie to the source: the mechanically translated arithmetic of `idiv_int` / `imod`
+
+`PcbV.Gen.Translated.idivCore / imodCore` are regenerated on every run from the *current Python AST*
+of the statements of `Integer.idiv_int` / `Integer.imod` after the zero test (gen/py2lean.py:
+`a = self.to_int()`, `b = rhs.to_int()`, the value is the argument of `self.from_int`; `//` =
+`Int.fdiv`, `%` = `Int.fmod`, `abs` = `Int.natAbs`).  The theorems say that the hand-written
+`idivInt` / `imod` (the subject of `idiv_spec` / `imod_spec`) are exactly that code between the
+zero test and `from_int`, for all operands, so an edit of the arithmetic breaks a proof obligation.
+The translated definitions are compared with the real methods by `vlib/translated.py`. -/
+
+theorem translated_idiv_supported : Gen.Translated.idivCore_supported = true := by decide
+theorem translated_imod_supported : Gen.Translated.imodCore_supported = true := by decide
+
+theorem translated_idiv_eq (a b : Nat) :
+    idivInt a b = if b = 0 then .error divZero
+      else fromInt (Gen.Translated.idivCore (toInt a) (toInt b)) false := by
+  unfold idivInt Gen.Translated.idivCore pyFloorDiv
+  by_cases hb : b = 0
+  · simp [hb]
+  · simp only [hb, if_false]
+    by_cases h1 : toInt a ≥ 0 <;> by_cases h2 : toInt b ≥ 0 <;> simp [h1, h2]
+
+theorem translated_imod_eq (a b : Nat) :
+    imod a b = if b = 0 then .error divZero
+      else fromInt (Gen.Translated.imodCore (toInt a) (toInt b)) false := by
+  unfold imod Gen.Translated.imodCore pyMod
+  by_cases hb : b = 0
+  · simp [hb]
+  · simp only [hb, if_false]
+    by_cases h1 : toInt a < 0 <;> by_cases h2 : toInt b < 0 <;> simp [h1, h2]
+
+example : Gen.Translated.idivCore (-7) 2 = -3 ∧ Gen.Translated.imodCore (-7) 2 = -1 ∧
+    Gen.Translated.idivCore 7 (-2) = -3 ∧ Gen.Translated.imodCore 7 (-2) = 1 := by decide
 
 end PcbV.C02
